@@ -105,12 +105,14 @@ func (nd *KVNode) ltrimCommand(cmd redcon.Command) (interface{}, error) {
 	if err != nil {
 		return nil, err
 	}
-	needContinue, _, err := nd.preCheckListLength(key)
-	if err != nil {
-		return nil, err
-	}
-	if !needContinue {
-		return checkOKRsp(cmd, nil)
+	if nd.isLocalStoreCurrent() {
+		needContinue, _, err := nd.preCheckListLength(key)
+		if err != nil {
+			return nil, err
+		}
+		if !needContinue {
+			return checkOKRsp(cmd, nil)
+		}
 	}
 	rsp, err := rebuildFirstKeyAndPropose(nd, cmd, checkOKRsp)
 	if err != nil {
